@@ -82,7 +82,10 @@ def trace_run(R, module, cfg_text, traces, name):
             elif t == "DRIFT":
                 drift.append(p)
             elif t == "TALLY":
-                R.traces += int(str(p).split(",")[0])
+                parts = [x.strip() for x in str(p).split(",")]
+                R.traces += int(parts[0])
+                if len(parts) >= 3 and parts[2].isdigit():
+                    R.extra["observations_judged_by_tlc"] = R.extra.get("observations_judged_by_tlc", 0) + int(parts[2])
     return viol, known, stale, drift
 
 
